@@ -18,6 +18,7 @@ THEOREMS = {
     'RsomeV.Props.IPCone': ['RsomeV.IPC.split_terminates', 'RsomeV.IPC.toSoc_isSome', 'RsomeV.IPC.toSoc_never_splits_singleton', 'RsomeV.IPC.ipcone_sound', 'RsomeV.IPC.ipcone_complete', 'RsomeV.IPC.pnorm_soc_sound', 'RsomeV.IPC.pnorm_soc_complete', 'RsomeV.IPC.power_sound', 'RsomeV.IPC.power_complete', 'RsomeV.IPC.gmean_sound', 'RsomeV.IPC.gmean_complete', 'RsomeV.IPC.pnorm_stdform_sound', 'RsomeV.IPC.pnorm_stdform_complete', 'RsomeV.IPC.power_stdform_sound', 'RsomeV.IPC.power_stdform_complete', 'RsomeV.IPC.gmean_stdform_sound', 'RsomeV.IPC.gmean_stdform_complete'],
     'RsomeV.Props.AtomsSoc': ['RsomeV.AtomsSoc.abs_complete', 'RsomeV.AtomsSoc.norm1_complete', 'RsomeV.AtomsSoc.norminf_complete', 'RsomeV.AtomsSoc.norm2_complete', 'RsomeV.AtomsSoc.square_complete', 'RsomeV.AtomsSoc.sumsqr_complete', 'RsomeV.AtomsSoc.rsocone_complete', 'RsomeV.AtomsSoc.foldBounds_spec', 'RsomeV.AtomsSoc.foldBounds_perm', 'RsomeV.AtomsSoc.foldBounds_feas', 'RsomeV.AtomsSoc.vtypeVector_length'],
     'RsomeV.Props.AtomsExp': ['RsomeV.AExp.exp_complete', 'RsomeV.AExp.log_complete', 'RsomeV.AExp.pexp_complete', 'RsomeV.AExp.plog_complete', 'RsomeV.AExp.entropy_complete', 'RsomeV.AExp.softplus_complete', 'RsomeV.AExp.kl_complete', 'RsomeV.AExp.encodeAtoms_complete'],
+    'RsomeV.Props.AtomsSum': ['RsomeV.ASum.expsum_complete', 'RsomeV.ASum.logsum_complete', 'RsomeV.ASum.expsum_complete_groups', 'RsomeV.ASum.logsum_complete_groups'],
 }
 RULE = ("(a) pinned-argument solves `min t s.t. k*atom(A x0 + b) <= t` for every atom and a grid of parameters (integer and "
         "rational p-norm degrees, powers p/q, integer gmean weights, PSD/NSD quadratic matrices with mixed-sign entries, multipliers); "
@@ -150,6 +151,7 @@ def sample_better(ctx, d, val, xs, nsamp=4000):
 def run(ctx):
     C.run_difftest(ctx, 'test_atoms_soc.py', ctx.n(150, 3000), 'atom encodings A/M/I/E/S/Q/rsocone, bound folding, vtype vector')
     C.run_difftest(ctx, 'test_atoms_exp.py', ctx.n(120, 2500), 'atom encodings X/L/P/F/pexp/plog/KL')
+    C.run_difftest(ctx, 'test_atoms_sum.py', ctx.n(80, 1500), 'summed exp/log atoms: exp(e).sum(axis) <= t, log(e).sum(axis) >= t')
     C.run_difftest(ctx, 'test_ipcone.py', 0, 'IPCone.to_soc tower (to_pot / split)', args=(ctx.n(9, 14), ctx.n(3, 4)))
     C.run_difftest(ctx, 'test_atoms_ipcone.py', ctx.n(60, 1500), 'atom encodings G/T/C (p-norm, power, gmean via IPCone)')
     C.run_difftest(ctx, 'test_det_model.py', ctx.n(60, 1200), 'whole deterministic do_math(): several atoms, rows, bounds, vtypes, affine/atom objective')
